@@ -561,7 +561,9 @@ class World(object):
             if c in self.points:
                 self.order.append(c)
             persister(c, b)
-        broker.add_observer(recording)
+        replay_order = self.desc.get("order") if self.frame else None
+        if not replay_order:
+            broker.add_observer(recording)
         try:
             if self.frame:
                 # as insights.collect does: every sub-graph in turn, ONE broker, one persister observer
@@ -570,6 +572,11 @@ class World(object):
                     graph.update(dr.get_dependency_graph(c))
                 self.subgraphs = len(list(dr.get_subgraphs(graph)))
                 dr.run_all(components=graph, broker=broker)
+                if replay_order:
+                    # replaying a recorded history: the engine's evaluation order depends on object addresses, so the
+                    # persister (the same public function) is fired in exactly the recorded order after evaluation
+                    for name in replay_order:
+                        recording(getattr(self.Specs, name), broker)
             else:
                 dr.run(self.points, broker)
         finally:
@@ -886,6 +893,9 @@ def _case(desc, **kw):
 def _run_world(w, desc, patterns, fail, count):
     w.collect()
     obs = observe_before(w)
+    if desc.get("frame"):
+        # the history (order of persister firings) is part of a failure-frame case: replays repeat it exactly
+        desc = dict(desc, order=[o["sp"]["name"] for o in obs])
     lines, spec_idx = proto_collect(w, obs)
     impl = ["ok"] * len(lines)
     keep = [False] * len(lines)
